@@ -385,7 +385,7 @@ func registerSrc(pkg string, c *Case) string {
 			depq = q
 		}
 	}
-	b.WriteString(")\n\nvar _ reflect.Type\n\nfunc init() {\n")
+	b.WriteString(")\n\nvar (\n\t_ reflect.Type\n\t_ context.Context\n\t_ diag.Diagnostics\n\t_ tfsdk.Schema\n\t_ types.Object\n)\n\nfunc init() {\n")
 	fmt.Fprintf(&b, "\tr := &rt.CaseReg{Name: %q, Types: map[string]*rt.TypeReg{}, Wrappers: map[string]reflect.Type{}, Structs: map[string]reflect.Type{}}\n", c.Name)
 	for _, t := range c.GeneratedTypes() {
 		if c.File.Msg(t, false) == nil {
